@@ -31,11 +31,15 @@ Side(name) == CASE name \in {"ASP", "GLU", "CYM", "TYM"} -> -1
                 [] name \in {"LYS", "ARG", "HIP", "HSP"} -> 1
                 [] OTHER -> 0
 Formal(r) == Side(r.name) + (IF r.n /\ ~r.nn THEN 1 ELSE 0) - (IF r.c /\ ~r.nc THEN 1 ELSE 0)
+\* charges are written with four decimals and parameter files are accurate to about 1e-4 per atom: a residue / strand /
+\* total is "equal" within 1e-3 e (the tolerance pdb2pqr's own integrality guard uses)
+Abs(v) == IF v < 0 THEN -v ELSE v
+Near(a, b) == Abs(a - b) <= 10
 ChargeBad ==
-  {<<"ChargeIsFormal", i>> : i \in {j \in 1..Len(T.res) : T.res[j].cls = "aa" /\ T.res[j].full /\ T.res[j].q # 10000 * Formal(T.res[j])}}
-  \cup {<<"WaterNeutral", i>> : i \in {j \in 1..Len(T.res) : T.res[j].cls = "wat" /\ T.res[j].full /\ T.res[j].q # 0}}
-  \cup {<<"StrandCharge", i>> : i \in {j \in 1..Len(T.strands) : T.strands[j].full /\ T.strands[j].q # -10000 * (T.strands[j].len - 1)}}
-  \cup (IF T.total % 10000 = 0 THEN {} ELSE {<<"TotalIntegral", 0>>})
+  {<<"ChargeIsFormal", i>> : i \in {j \in 1..Len(T.res) : T.res[j].cls = "aa" /\ T.res[j].full /\ ~Near(T.res[j].q, 10000 * Formal(T.res[j]))}}
+  \cup {<<"WaterNeutral", i>> : i \in {j \in 1..Len(T.res) : T.res[j].cls = "wat" /\ T.res[j].full /\ ~Near(T.res[j].q, 0)}}
+  \cup {<<"StrandCharge", i>> : i \in {j \in 1..Len(T.strands) : T.strands[j].full /\ ~Near(T.strands[j].q, -10000 * (T.strands[j].len - 1))}}
+  \cup (IF (T.total + 10) % 10000 <= 20 THEN {} ELSE {<<"TotalIntegral", 0>>})
 ObsFlag == [r \in 1..Len(T.obs) |-> T.obs[r]]
 Report == pc \in {"done", "error"} =>
    IF T.kind = "flags"
